@@ -6,6 +6,8 @@ import SignaloModel.Proofs.DiffIntVarProofs
 Property theorems for C15 (statements are printed by `#check`, axioms by `#check @Registry.diff_spec
 #check @Registry.diff_state
 #check @Registry.int_state
+#check @Registry.differentiate_registry_correct
+#check @Registry.integrate_registry_correct
 #print axioms`;
 `bin/check C15` re-elaborates this file on every run and audits the axiom lists).
 -/
@@ -19,3 +21,5 @@ open SignaloModel
 #print axioms Registry.diff_spec
 #print axioms Registry.diff_state
 #print axioms Registry.int_state
+#print axioms Registry.differentiate_registry_correct
+#print axioms Registry.integrate_registry_correct
